@@ -24,6 +24,7 @@ type Config struct {
 	SndBuf    int      `json:"sndbuf,omitempty"` // kernel send buffer of accepted sockets
 	RcvBuf    int      `json:"rcvbuf,omitempty"` // how much a peer may have in flight
 	Ticker    bool     `json:"ticker,omitempty"`
+	KeepAlive int      `json:"keepalive,omitempty"` // seconds: WithTCPKeepAlive (setsockopt calls on the listener)
 	TickMs    int      `json:"tick_ms,omitempty"`
 	Strategy  string   `json:"strategy"`
 	Quantum   int      `json:"quantum"`
